@@ -1,21 +1,23 @@
 import GS.Model.Bf
+import GS.Props.C11_Unique
 /-!
-# C11 (formula side): `nnf` preserves the truth table and lands in the grammar `cnfRec` accepts;
-the builders `Implies`, `Eq`, `Xor`, `uniqueSmall` have the standard semantics.
+# C11 (formula side): `nnf` and the truth table; `nnf` lands in the grammar `cnfRec` accepts
+
+`Unique(names...)` is the node `F.unique`. `nnf` replaces it by `uniqueRec(u...).nnf()` where it
+must hold and by `u.negation().nnf()` where it must not (`GS/Model/Bf.lean`). Hence:
+
+* `nnf_eval` — *same truth value under every assignment* — holds on the formulas whose groups in
+  positive position have at most 4 names (`smallPos`; no restriction on the groups in negative
+  position): there `nnf` introduces no dummy variable;
+* for every formula: `nnf_sound` (a model of `f.nnf()`, whatever it gives to the dummies, is a
+  model of `f`), `nnf_eval_coh` (same truth value under every assignment whose line / column
+  dummies are the disjunctions of their members) and `nnf_complete` / `nnf_models` (the models
+  of `f` are the restrictions to the problem variables of the models of `f.nnf()`).
 -/
 namespace GS.Bf
+open GS.BfUnique (uniqueRec uniqueRecN uniqueRecF natDims natName)
 
-/-! ## `nnf_eval` -/
-
-theorem evalAll_append (m) (xs ys : List F) : evalAll m (xs ++ ys) = (evalAll m xs && evalAll m ys) := by
-  induction xs with
-  | nil => simp [evalAll]
-  | cons x xs ih => simp [evalAll, ih, Bool.and_assoc]
-
-theorem evalAny_append (m) (xs ys : List F) : evalAny m (xs ++ ys) = (evalAny m xs || evalAny m ys) := by
-  induction xs with
-  | nil => simp [evalAny]
-  | cons x xs ih => simp [evalAny, ih, Bool.or_assoc]
+/-! ## `nnf` and `Eval` -/
 
 theorem andFold_eval (m) : ∀ (xs acc : List F), eval m (andFold xs acc) = (evalAll m acc && evalAll m xs) := by
   intro xs
@@ -39,48 +41,326 @@ theorem orFold_eval (m) : ∀ (xs acc : List F), eval m (orFold xs acc) = (evalA
     intro acc
     cases x <;> simp [orFold, ih, eval, evalAny, evalAny_append, Bool.or_assoc]
 
-mutual
-theorem nnfP_eval (m) : ∀ (b : Bool) (f : F), eval m (nnfP b f) = (eval m f != b)
-  | false, .var n d => by simp [nnfP, eval]
-  | true, .var n d => by simp [nnfP, eval]
-  | b, .lit n d neg => by cases b <;> cases neg <;> simp [nnfP, eval]
-  | false, .not f => by
-      have := nnfP_eval m true f
-      simp [nnfP, eval, this]
-  | true, .not f => by
-      have := nnfP_eval m false f
-      simp [nnfP, eval, this]
-  | false, .and fs => by simp [nnfP, andFold_eval, eval, evalAll, nnfPs_all m fs]
-  | true, .and fs => by simp [nnfP, orFold_eval, eval, evalAny, nnfPs_any_neg m fs]
-  | false, .or fs => by simp [nnfP, orFold_eval, eval, evalAny, nnfPs_any m fs]
-  | true, .or fs => by simp [nnfP, andFold_eval, eval, evalAll, nnfPs_all_neg m fs]
-  | false, .tt => by simp [nnfP, eval]
-  | true, .tt => by simp [nnfP, eval]
-  | false, .ff => by simp [nnfP, eval]
-  | true, .ff => by simp [nnfP, eval]
-theorem nnfPs_all (m) : ∀ fs : List F, evalAll m (nnfPs false fs) = evalAll m fs
-  | [] => by simp [nnfPs, evalAll]
-  | f :: fs => by simp [nnfPs, evalAll, nnfP_eval m false f, nnfPs_all m fs]
-theorem nnfPs_any (m) : ∀ fs : List F, evalAny m (nnfPs false fs) = evalAny m fs
-  | [] => by simp [nnfPs, evalAny]
-  | f :: fs => by simp [nnfPs, evalAny, nnfP_eval m false f, nnfPs_any m fs]
-theorem nnfPs_any_neg (m) : ∀ fs : List F, evalAny m (nnfPs true fs) = !evalAll m fs
-  | [] => by simp [nnfPs, evalAny, evalAll]
-  | f :: fs => by simp [nnfPs, evalAny, evalAll, nnfP_eval m true f, nnfPs_any_neg m fs, Bool.not_and]
-theorem nnfPs_all_neg (m) : ∀ fs : List F, evalAll m (nnfPs true fs) = !evalAny m fs
-  | [] => by simp [nnfPs, evalAny, evalAll]
-  | f :: fs => by simp [nnfPs, evalAny, evalAll, nnfP_eval m true f, nnfPs_all_neg m fs, Bool.not_or]
-end
+/-! ### the recursion, for an arbitrary treatment `X` of the `unique` nodes -/
 
-/-- **C11, first half.** `f.nnf()` has the truth table of `f`, for every tree: empty `and` (true),
-    empty `or` (false), constants at any depth, nested negations. -/
-theorem nnf_eval (m : Key → Bool) (f : F) : eval m (nnf f) = eval m f := by
-  simp [nnf, nnfP_eval]
+section evalX
+set_option linter.unusedSectionVars false
+variable (m : Key → Bool) (X : Bool → List Key → F) (q : Bool → List Key → Bool)
+  (hX : ∀ b ks, q b ks = true → eval m (X b ks) = (eval m (.unique ks) != b))
+include hX
+
+mutual
+theorem nnfPX_eval : ∀ (b : Bool) (f : F), allU q b f = true → eval m (nnfPX X b f) = (eval m f != b)
+  | false, .var n d, _ => by simp [nnfPX, eval]
+  | true, .var n d, _ => by simp [nnfPX, eval]
+  | b, .lit n d neg, _ => by cases b <;> cases neg <;> simp [nnfPX, eval]
+  | false, .not f, h => by
+      have := nnfPX_eval true f (by simpa [allU] using h)
+      simp [nnfPX, eval, this]
+  | true, .not f, h => by
+      have := nnfPX_eval false f (by simpa [allU] using h)
+      simp [nnfPX, eval, this]
+  | false, .and fs, h => by
+      simp [nnfPX, andFold_eval, eval, evalAll, nnfPsX_all fs (by simpa [allU] using h)]
+  | true, .and fs, h => by
+      simp [nnfPX, orFold_eval, eval, evalAny, nnfPsX_any_neg fs (by simpa [allU] using h)]
+  | false, .or fs, h => by
+      simp [nnfPX, orFold_eval, eval, evalAny, nnfPsX_any fs (by simpa [allU] using h)]
+  | true, .or fs, h => by
+      simp [nnfPX, andFold_eval, eval, evalAll, nnfPsX_all_neg fs (by simpa [allU] using h)]
+  | false, .tt, _ => by simp [nnfPX, eval]
+  | true, .tt, _ => by simp [nnfPX, eval]
+  | false, .ff, _ => by simp [nnfPX, eval]
+  | true, .ff, _ => by simp [nnfPX, eval]
+  | b, .unique ks, h => by
+      simp only [nnfPX]; exact hX b ks (by simpa [allU] using h)
+theorem nnfPsX_all : ∀ fs : List F, allUs q false fs = true → evalAll m (nnfPsX X false fs) = evalAll m fs
+  | [], _ => by simp [nnfPsX, evalAll]
+  | f :: fs, h => by
+      simp only [allUs, Bool.and_eq_true] at h
+      simp [nnfPsX, evalAll, nnfPX_eval false f h.1, nnfPsX_all fs h.2]
+theorem nnfPsX_any : ∀ fs : List F, allUs q false fs = true → evalAny m (nnfPsX X false fs) = evalAny m fs
+  | [], _ => by simp [nnfPsX, evalAny]
+  | f :: fs, h => by
+      simp only [allUs, Bool.and_eq_true] at h
+      simp [nnfPsX, evalAny, nnfPX_eval false f h.1, nnfPsX_any fs h.2]
+theorem nnfPsX_any_neg : ∀ fs : List F, allUs q true fs = true → evalAny m (nnfPsX X true fs) = !evalAll m fs
+  | [], _ => by simp [nnfPsX, evalAny, evalAll]
+  | f :: fs, h => by
+      simp only [allUs, Bool.and_eq_true] at h
+      simp [nnfPsX, evalAny, evalAll, nnfPX_eval true f h.1, nnfPsX_any_neg fs h.2, Bool.not_and]
+theorem nnfPsX_all_neg : ∀ fs : List F, allUs q true fs = true → evalAll m (nnfPsX X true fs) = !evalAny m fs
+  | [], _ => by simp [nnfPsX, evalAny, evalAll]
+  | f :: fs, h => by
+      simp only [allUs, Bool.and_eq_true] at h
+      simp [nnfPsX, evalAny, evalAll, nnfPX_eval true f h.1, nnfPsX_all_neg fs h.2, Bool.not_or]
+end
+end evalX
+
+section soundX
+set_option linter.unusedSectionVars false
+variable (m : Key → Bool) (X : Bool → List Key → F)
+  (hX : ∀ b ks, eval m (X b ks) = true → (eval m (.unique ks) != b) = true)
+include hX
+
+mutual
+/-- one direction only, but for every tree: a model of the normal form is a model of the formula -/
+theorem nnfPX_sound : ∀ (b : Bool) (f : F), eval m (nnfPX X b f) = true → (eval m f != b) = true
+  | false, .var n d, h => by simpa [nnfPX, eval] using h
+  | true, .var n d, h => by simpa [nnfPX, eval] using h
+  | b, .lit n d neg, h => by cases b <;> cases neg <;> simpa [nnfPX, eval] using h
+  | false, .not f, h => by
+      have := nnfPX_sound true f (by simpa [nnfPX] using h)
+      simpa [eval] using this
+  | true, .not f, h => by
+      have := nnfPX_sound false f (by simpa [nnfPX] using h)
+      simpa [eval] using this
+  | false, .and fs, h => by
+      simp only [nnfPX, andFold_eval, evalAll, Bool.true_and] at h
+      simpa [eval] using nnfPsX_all_s fs h
+  | true, .and fs, h => by
+      simp only [nnfPX, orFold_eval, evalAny, Bool.false_or] at h
+      simpa [eval] using nnfPsX_any_neg_s fs h
+  | false, .or fs, h => by
+      simp only [nnfPX, orFold_eval, evalAny, Bool.false_or] at h
+      simpa [eval] using nnfPsX_any_s fs h
+  | true, .or fs, h => by
+      simp only [nnfPX, andFold_eval, evalAll, Bool.true_and] at h
+      simpa [eval] using nnfPsX_all_neg_s fs h
+  | false, .tt, _ => by simp [eval]
+  | true, .tt, h => by simp [nnfPX, eval] at h
+  | false, .ff, h => by simp [nnfPX, eval] at h
+  | true, .ff, _ => by simp [eval]
+  | b, .unique ks, h => by
+      simp only [nnfPX] at h; exact hX b ks h
+theorem nnfPsX_all_s : ∀ fs : List F, evalAll m (nnfPsX X false fs) = true → evalAll m fs = true
+  | [], _ => by simp [evalAll]
+  | f :: fs, h => by
+      simp only [nnfPsX, evalAll, Bool.and_eq_true] at h
+      have h1 := nnfPX_sound false f h.1
+      simp only [evalAll, nnfPsX_all_s fs h.2, Bool.and_true]
+      simpa using h1
+theorem nnfPsX_any_s : ∀ fs : List F, evalAny m (nnfPsX X false fs) = true → evalAny m fs = true
+  | [], h => by simp [nnfPsX, evalAny] at h
+  | f :: fs, h => by
+      simp only [nnfPsX, evalAny, Bool.or_eq_true] at h
+      simp only [evalAny, Bool.or_eq_true]
+      rcases h with h | h
+      · left; simpa using nnfPX_sound false f h
+      · right; exact nnfPsX_any_s fs h
+theorem nnfPsX_any_neg_s : ∀ fs : List F, evalAny m (nnfPsX X true fs) = true → evalAll m fs = false
+  | [], h => by simp [nnfPsX, evalAny] at h
+  | f :: fs, h => by
+      simp only [nnfPsX, evalAny, Bool.or_eq_true] at h
+      simp only [evalAll, Bool.and_eq_false_iff]
+      rcases h with h | h
+      · left; simpa using nnfPX_sound true f h
+      · right; exact nnfPsX_any_neg_s fs h
+theorem nnfPsX_all_neg_s : ∀ fs : List F, evalAll m (nnfPsX X true fs) = true → evalAny m fs = false
+  | [], _ => by simp [evalAny]
+  | f :: fs, h => by
+      simp only [nnfPsX, evalAll, Bool.and_eq_true] at h
+      have h1 := nnfPX_sound true f h.1
+      simp only [evalAny, nnfPsX_all_neg_s fs h.2, Bool.or_false]
+      simpa using h1
+end
+end soundX
+
+/-! ### the two steps: `nnf0P` (formulas without `unique` node), `uniqueX`, `nnfP` -/
+
+/-- on a formula without `unique` node, `nnf` keeps the truth table (this is the statement before
+    `unique` became a node) -/
+theorem nnf0P_eval (m : Key → Bool) (b : Bool) (f : F) (h : noU f = true) :
+    eval m (nnf0P b f) = (eval m f != b) :=
+  nnfPX_eval m _ (fun _ _ => false) (by intro b ks hq; simp at hq) b f (allU_of_noU _ b f h)
+
+/-- **negative position: exact.** The case `unique` of `not.nnf`, `f.negation().nnf()`, is true
+    iff *not* exactly one position of the group is true — any number of variables, repeated or
+    not, under every assignment. -/
+theorem uniqueX_true_eval (m : Key → Bool) (ks : List Key) :
+    eval m (uniqueX true ks) = !eval m (.unique ks) := by
+  simp only [uniqueX, uniqueXD, if_true]
+  rw [nnf0P_eval m false _ (negation_noU ks), negation_eval_unique]; simp
+
+/-- positive position: `unique.nnf()` has the truth table of `uniqueRec(u...)` -/
+theorem uniqueX_false_eval (m : Key → Bool) (ks : List Key) :
+    eval m (uniqueX false ks) = eval m (uniqueRec natDims ks) := by
+  simp only [uniqueX, uniqueXD, Bool.false_eq_true, if_false]
+  rw [nnf0P_eval m false _ (show noU (uniqueRec natDims ks) = true from GS.BfUnique.uniqueRecF_noU _ _ _ _)]; simp
+
+/-- positive position, at most 4 variables (`uniqueSmall`): exact -/
+theorem uniqueX_false_small (m : Key → Bool) (ks : List Key) (h : ks.length ≤ 4) :
+    eval m (uniqueX false ks) = eval m (.unique ks) := by
+  rw [uniqueX_false_eval]
+  exact GS.BfUnique.uniqueRecF_small natDims natName m _ ks h
+
+/-- positive position, any size, any values of the dummies: the clauses of `uniqueRec` *imply*
+    that exactly one position is true -/
+theorem uniqueX_false_sound (m : Key → Bool) (ks : List Key) (h : eval m (uniqueX false ks) = true) :
+    eval m (.unique ks) = true := by
+  rw [uniqueX_false_eval] at h
+  have := GS.BfUnique.uniqueRecN_sound natDims natName GS.BfUnique.natDims_ok m ks h
+  simp [eval, this]
+
+theorem uniqueX_sound (m : Key → Bool) (b : Bool) (ks : List Key) (h : eval m (uniqueX b ks) = true) :
+    (eval m (.unique ks) != b) = true := by
+  cases b
+  · simpa using uniqueX_false_sound m ks h
+  · rw [uniqueX_true_eval] at h; simpa using h
+
+/-- `nnfP` on the fragment where it keeps the truth table under every assignment -/
+theorem nnfP_eval (m : Key → Bool) (b : Bool) (f : F)
+    (h : allU (fun b ks => b || decide (ks.length ≤ 4)) b f = true) : eval m (nnfP b f) = (eval m f != b) := by
+  refine nnfPX_eval m uniqueX _ ?_ b f h
+  intro b ks hq
+  cases b
+  · simp only [Bool.false_or, decide_eq_true_eq] at hq
+    simpa using uniqueX_false_small m ks hq
+  · rw [uniqueX_true_eval]; simp
+
+/-- **C11, first half.** `f.nnf()` has the truth table of `f`, under every assignment, for every
+    tree whose exactly-one groups *in positive position* have at most 4 names (groups in negative
+    position: any size): empty `and` (true), empty `or` (false), constants at any depth, nested
+    negations, negated groups. (With a larger group in positive position `f.nnf()` mentions dummy
+    variables: see `nnf_sound`, `nnf_eval_coh`, `nnf_models`.) -/
+theorem nnf_eval (m : Key → Bool) (f : F) (h : smallPos f = true) : eval m (nnf f) = eval m f := by
+  simp [nnf, nnfP_eval m false f h]
+
+/-- the formulas of before the repair (no `unique` node) are in the fragment -/
+theorem smallPos_of_noU (f : F) (h : noU f = true) : smallPos f = true := allU_of_noU _ _ f h
+
+theorem nnfP_sound (m : Key → Bool) (b : Bool) (f : F) (h : eval m (nnfP b f) = true) :
+    (eval m f != b) = true :=
+  nnfPX_sound m uniqueX (uniqueX_sound m) b f h
+
+/-- **`nnf_sound`.** Every model of `f.nnf()` — whatever it gives to the dummy variables — is a
+    model of `f`: every tree, groups of every size at every polarity. -/
+theorem nnf_sound (m : Key → Bool) (f : F) (h : eval m (nnf f) = true) : eval m f = true := by
+  simpa using nnfP_sound m false f h
 
 example : nnf (.and [.or [], .not (.not (.var 0 false)), .and []]) = .ff := by
-  simp [nnf, nnfP, nnfPs, andFold, orFold]
+  simp [nnf, nnfP, nnfPX, nnfPsX, andFold, orFold]
 example : nnf (.not (.and [.var 0 false, .or [.tt, .var 1 false], .not (.or [])])) = .lit 0 false true := by
-  simp [nnf, nnfP, nnfPs, andFold, orFold]
+  simp [nnf, nnfP, nnfPX, nnfPsX, andFold, orFold]
+example : smallPos (.not (uniqueOf [0, 1, 2, 3, 4, 5])) = true := by decide
+example : smallPos (implies (uniqueOf [0, 1, 2, 3, 4]) (uniqueOf [5, 6, 7])) = true := by decide
+example : smallPos (eq (.var 9 false) (uniqueOf [0, 1, 2, 3, 4])) = false := by decide
+
+/-! ### assignments whose dummies are coherent: same truth value for every formula -/
+
+/-- the keys `uniqueRec` can generate from the problem variables -/
+def Gen (k : Key) : Prop := ∃ d, GS.BfUnique.D.name natName d = k
+
+/-- `m` gives every line / column dummy (at every level) the disjunction of its members -/
+def Coherent (m : Key → Bool) : Prop := GS.BfUnique.Coh natDims natName Gen m
+
+theorem uniqueX_false_coh (m : Key → Bool) (hc : Coherent m) (ks : List Key)
+    (hk : ks.all (fun k => !k.2) = true) : eval m (uniqueX false ks) = eval m (.unique ks) := by
+  rw [uniqueX_false_eval, Bool.eq_iff_iff]
+  constructor
+  · intro h
+    have := GS.BfUnique.uniqueRecN_sound natDims natName GS.BfUnique.natDims_ok m ks h
+    simp [eval, this]
+  · intro h
+    refine GS.BfUnique.uniqueRecF_coherent natDims natName GS.BfUnique.natDims_ok Gen m hc _ ks (Nat.le_refl _) ?_ ?_
+    · intro k hkm
+      have := List.all_eq_true.1 hk k hkm
+      obtain ⟨n, d⟩ := k
+      simp only [Bool.not_eq_true'] at this
+      subst this
+      exact ⟨.base n, rfl⟩
+    · simpa [eval] using h
+
+mutual
+theorem allU_of_allK (p : Key → Bool) : ∀ (b : Bool) (f : F), allK p f = true → allU (fun _ ks => ks.all p) b f = true
+  | _, .var _ _, _ => by simp [allU]
+  | _, .lit _ _ _, _ => by simp [allU]
+  | b, .not f, h => by simp only [allU]; exact allU_of_allK p (!b) f (by simpa [allK] using h)
+  | b, .and fs, h => by simp only [allU]; exact allUs_of_allKs p b fs (by simpa [allK] using h)
+  | b, .or fs, h => by simp only [allU]; exact allUs_of_allKs p b fs (by simpa [allK] using h)
+  | _, .tt, _ => by simp [allU]
+  | _, .ff, _ => by simp [allU]
+  | _, .unique ks, h => by simpa [allU, allK] using h
+theorem allUs_of_allKs (p : Key → Bool) : ∀ (b : Bool) (fs : List F), allKs p fs = true → allUs (fun _ ks => ks.all p) b fs = true
+  | _, [], _ => by simp [allUs]
+  | b, f :: fs, h => by
+      simp only [allKs, Bool.and_eq_true] at h
+      simp [allUs, allU_of_allK p b f h.1, allUs_of_allKs p b fs h.2]
+end
+
+theorem nnfP_eval_coh (m : Key → Bool) (hc : Coherent m) (b : Bool) (f : F) (hu : userOnly f = true) :
+    eval m (nnfP b f) = (eval m f != b) := by
+  refine nnfPX_eval m uniqueX (fun _ ks => ks.all (fun k => !k.2)) ?_ b f (allU_of_allK _ b f hu)
+  intro b ks hq
+  cases b
+  · simpa using uniqueX_false_coh m hc ks hq
+  · rw [uniqueX_true_eval]; simp
+
+/-- **`nnf_eval_coh`.** Under an assignment whose dummies are coherent, `f.nnf()` has the truth
+    value of `f`: every formula built through the API, groups of every size at every polarity. -/
+theorem nnf_eval_coh (m : Key → Bool) (hc : Coherent m) (f : F) (hu : userOnly f = true) :
+    eval m (nnf f) = eval m f := by
+  simp [nnf, nnfP_eval_coh m hc false f hu]
+
+mutual
+theorem eval_congr (p : Key → Bool) (m m' : Key → Bool) (hm : ∀ k, p k = true → m' k = m k) :
+    ∀ f : F, allK p f = true → eval m' f = eval m f
+  | .var n d, h => by simp only [eval]; exact hm _ (by simpa [allK] using h)
+  | .lit n d s, h => by simp only [eval]; rw [hm _ (by simpa [allK] using h)]
+  | .not f, h => by simp only [eval]; rw [eval_congr p m m' hm f (by simpa [allK] using h)]
+  | .and fs, h => by simp only [eval]; exact evalAll_congr p m m' hm fs (by simpa [allK] using h)
+  | .or fs, h => by simp only [eval]; exact evalAny_congr p m m' hm fs (by simpa [allK] using h)
+  | .tt, _ => rfl
+  | .ff, _ => rfl
+  | .unique ks, h => by
+      simp only [allK, List.all_eq_true] at h
+      simp only [eval]
+      rw [List.map_congr_left (fun k hk => hm k (h k hk))]
+theorem evalAll_congr (p : Key → Bool) (m m' : Key → Bool) (hm : ∀ k, p k = true → m' k = m k) :
+    ∀ fs : List F, allKs p fs = true → evalAll m' fs = evalAll m fs
+  | [], _ => rfl
+  | f :: fs, h => by
+      simp only [allKs, Bool.and_eq_true] at h
+      simp only [evalAll, eval_congr p m m' hm f h.1, evalAll_congr p m m' hm fs h.2]
+theorem evalAny_congr (p : Key → Bool) (m m' : Key → Bool) (hm : ∀ k, p k = true → m' k = m k) :
+    ∀ fs : List F, allKs p fs = true → evalAny m' fs = evalAny m fs
+  | [], _ => rfl
+  | f :: fs, h => by
+      simp only [allKs, Bool.and_eq_true] at h
+      simp only [evalAny, eval_congr p m m' hm f h.1, evalAny_congr p m m' hm fs h.2]
+end
+
+/-- a formula built through the API only reads the problem variables -/
+theorem eval_congr_user (m m' : Key → Bool) (hm : ∀ n, m' (n, false) = m (n, false)) (f : F)
+    (hu : userOnly f = true) : eval m' f = eval m f := by
+  refine eval_congr (fun k => !k.2) m m' ?_ f hu
+  rintro ⟨n, d⟩ hd
+  simp only [Bool.not_eq_true'] at hd
+  subst hd
+  exact hm n
+
+/-- **`nnf_complete`.** Every model of `f` extends to a model of `f.nnf()`: same values on the
+    problem variables, every line / column dummy the disjunction of its members. -/
+theorem nnf_complete (m : Key → Bool) (f : F) (hu : userOnly f = true) (h : eval m f = true) :
+    ∃ m' : Key → Bool, (∀ n, m' (n, false) = m (n, false)) ∧ Coherent m' ∧ eval m' (nnf f) = true := by
+  have hu' := GS.BfUnique.ext_user natDims natName GS.BfUnique.natName_inj m
+  have hc : Coherent (GS.BfUnique.ext natDims natName m) := GS.BfUnique.ext_coh natDims natName GS.BfUnique.natName_inj m
+  refine ⟨_, hu', hc, ?_⟩
+  rw [nnf_eval_coh _ hc f hu, eval_congr_user m _ hu' f hu, h]
+
+/-- **`nnf_models`.** For every formula built through the API — exactly-one groups of every size
+    at every polarity — the models of `f` are exactly the restrictions to the problem variables
+    of the models of `f.nnf()`: the dummy variables are existentially quantified, and since the
+    repair they only occur where that is right. -/
+theorem nnf_models (m : Key → Bool) (f : F) (hu : userOnly f = true) :
+    eval m f = true ↔ ∃ m' : Key → Bool, (∀ n, m' (n, false) = m (n, false)) ∧ eval m' (nnf f) = true := by
+  constructor
+  · intro h
+    obtain ⟨m', h1, _, h3⟩ := nnf_complete m f hu h
+    exact ⟨m', h1, h3⟩
+  · rintro ⟨m', h1, h2⟩
+    rw [← eval_congr_user m m' h1 f hu]
+    exact nnf_sound m' f h2
 
 /-! ## `nnf_grammar`: the image of `nnf` is the input grammar of `cnfRec` -/
 
@@ -96,6 +376,7 @@ def nnfOk : Bool → Bool → F → Bool
   | _, _, .not _ => false
   | _, _, .tt => false
   | _, _, .ff => false
+  | _, _, .unique _ => false
 def nnfOkAll : Bool → Bool → List F → Bool
   | _, _, [] => true
   | a, o, f :: fs => nnfOk a o f && nnfOkAll a o fs
@@ -164,6 +445,7 @@ theorem andFold_isNNF : ∀ (xs acc : List F), (∀ x ∈ xs, IsNNF x) → nnfOk
       simp [nnfOkAll_append, hacc, nnfOkAll, nnfOk, hx0]
     | tt => simp only [andFold]; exact ih _ hxs hacc
     | ff => simp [andFold, IsNNF]
+    | unique ks => simp [IsNNF, nnfOk] at hx0
 
 theorem orFold_isNNF : ∀ (xs acc : List F), (∀ x ∈ xs, IsNNF x) → nnfOkAll false true acc = true →
     IsNNF (orFold xs acc) := by
@@ -189,37 +471,54 @@ theorem orFold_isNNF : ∀ (xs acc : List F), (∀ x ∈ xs, IsNNF x) → nnfOkA
       simp [nnfOkAll_append, hacc, nnfOkAll, nnfOk, hx0]
     | ff => simp only [orFold]; exact ih _ hxs hacc
     | tt => simp [orFold, IsNNF]
+    | unique ks => simp [IsNNF, nnfOk] at hx0
 
+section nnfX
+set_option linter.unusedSectionVars false
+variable (X : Bool → List Key → F) (hX : ∀ b ks, IsNNF (X b ks))
+include hX
 mutual
-theorem nnfP_isNNF : ∀ (b : Bool) (f : F), IsNNF (nnfP b f)
-  | false, .var n d => by simp [nnfP, IsNNF, nnfOk]
-  | true, .var n d => by simp [nnfP, IsNNF, nnfOk]
-  | b, .lit n d neg => by simp [nnfP, IsNNF, nnfOk]
-  | false, .not f => by simpa [nnfP] using nnfP_isNNF true f
-  | true, .not f => by simpa [nnfP] using nnfP_isNNF false f
+theorem nnfPX_isNNF : ∀ (b : Bool) (f : F), IsNNF (nnfPX X b f)
+  | false, .var n d => by simp [nnfPX, IsNNF, nnfOk]
+  | true, .var n d => by simp [nnfPX, IsNNF, nnfOk]
+  | b, .lit n d neg => by simp [nnfPX, IsNNF, nnfOk]
+  | false, .not f => by simpa [nnfPX] using nnfPX_isNNF true f
+  | true, .not f => by simpa [nnfPX] using nnfPX_isNNF false f
   | false, .and fs => by
-      simp only [nnfP]; exact andFold_isNNF _ _ (nnfPs_isNNF false fs) (by simp [nnfOkAll])
+      simp only [nnfPX]; exact andFold_isNNF _ _ (nnfPsX_isNNF false fs) (by simp [nnfOkAll])
   | true, .and fs => by
-      simp only [nnfP]; exact orFold_isNNF _ _ (nnfPs_isNNF true fs) (by simp [nnfOkAll])
+      simp only [nnfPX]; exact orFold_isNNF _ _ (nnfPsX_isNNF true fs) (by simp [nnfOkAll])
   | false, .or fs => by
-      simp only [nnfP]; exact orFold_isNNF _ _ (nnfPs_isNNF false fs) (by simp [nnfOkAll])
+      simp only [nnfPX]; exact orFold_isNNF _ _ (nnfPsX_isNNF false fs) (by simp [nnfOkAll])
   | true, .or fs => by
-      simp only [nnfP]; exact andFold_isNNF _ _ (nnfPs_isNNF true fs) (by simp [nnfOkAll])
-  | false, .tt => by simp [nnfP, IsNNF]
-  | true, .tt => by simp [nnfP, IsNNF]
-  | false, .ff => by simp [nnfP, IsNNF]
-  | true, .ff => by simp [nnfP, IsNNF]
-theorem nnfPs_isNNF : ∀ (b : Bool) (fs : List F), ∀ x ∈ nnfPs b fs, IsNNF x
-  | _, [] => by simp [nnfPs]
+      simp only [nnfPX]; exact andFold_isNNF _ _ (nnfPsX_isNNF true fs) (by simp [nnfOkAll])
+  | false, .tt => by simp [nnfPX, IsNNF]
+  | true, .tt => by simp [nnfPX, IsNNF]
+  | false, .ff => by simp [nnfPX, IsNNF]
+  | true, .ff => by simp [nnfPX, IsNNF]
+  | b, .unique ks => by simp only [nnfPX]; exact hX b ks
+theorem nnfPsX_isNNF : ∀ (b : Bool) (fs : List F), ∀ x ∈ nnfPsX X b fs, IsNNF x
+  | _, [] => by simp [nnfPsX]
   | b, f :: fs => by
       intro x hx
-      simp only [nnfPs, List.mem_cons] at hx
+      simp only [nnfPsX, List.mem_cons] at hx
       rcases hx with rfl | hx
-      · exact nnfP_isNNF b f
-      · exact nnfPs_isNNF b fs x hx
+      · exact nnfPX_isNNF b f
+      · exact nnfPsX_isNNF b fs x hx
 end
+end nnfX
 
-/-- **`nnf_grammar`, part 1.** `f.nnf()` is always in the NNF grammar. -/
+theorem nnf0P_isNNF (b : Bool) (f : F) : IsNNF (nnf0P b f) :=
+  nnfPX_isNNF _ (fun _ _ => Or.inr (Or.inl rfl)) b f
+
+theorem uniqueX_isNNF (b : Bool) (ks : List Key) : IsNNF (uniqueX b ks) := nnf0P_isNNF false _
+
+theorem nnfP_isNNF (b : Bool) (f : F) : IsNNF (nnfP b f) := nnfPX_isNNF uniqueX uniqueX_isNNF b f
+
+theorem nnfPs_isNNF (b : Bool) (fs : List F) : ∀ x ∈ nnfPs b fs, IsNNF x := nnfPsX_isNNF uniqueX uniqueX_isNNF b fs
+
+/-- **`nnf_grammar`, part 1.** `f.nnf()` is always in the NNF grammar (in particular it contains no
+    `unique` node any more). -/
 theorem nnf_isNNF (f : F) : IsNNF (nnf f) := nnfP_isNNF false f
 
 example : IsNNF (nnf (.not (.and [.var 0 false, .or [.var 1 false, .not (.var 2 false)]]))) := nnf_isNNF _
@@ -227,6 +526,7 @@ example : ¬ IsNNF (.or [.lit 0 false false, .or [.lit 1 false false, .lit 2 fal
   simp [IsNNF, nnfOk, nnfOkAll]
 example : ¬ IsNNF (.and [.lit 0 false false, .tt]) := by simp [IsNNF, nnfOk, nnfOkAll]
 example : ¬ IsNNF (.and [.lit 0 false false]) := by simp [IsNNF, nnfOk, nnfOkAll]
+example : ¬ IsNNF (.unique [(0, false)]) := by simp [IsNNF, nnfOk]
 
 /-! ### `cnfRec` does not panic on the NNF grammar -/
 
@@ -244,6 +544,7 @@ theorem cnfRec_some_of_ok : ∀ (a o : Bool) (f : F), nnfOk a o f = true → ∀
   | _, _, .not _, h, _ => by simp [nnfOk] at h
   | _, _, .tt, h, _ => by simp [nnfOk] at h
   | _, _, .ff, h, _ => by simp [nnfOk] at h
+  | _, _, .unique _, h, _ => by simp [nnfOk] at h
 theorem cnfAnd_some_of_ok : ∀ (a o : Bool) (fs : List F), nnfOkAll a o fs = true → ∀ t, ∃ r, cnfAnd fs t = some r
   | _, _, [], _, t => by simp [cnfAnd]
   | a, o, f :: fs, h, t => by
@@ -269,6 +570,7 @@ theorem cnfOrChild_some_of_ok : ∀ (f : F), nnfOk false true f = true → ∀ t
   | .not _, h, _ => by simp [nnfOk] at h
   | .tt, h, _ => by simp [nnfOk] at h
   | .ff, h, _ => by simp [nnfOk] at h
+  | .unique _, h, _ => by simp [nnfOk] at h
 end
 
 theorem cnfRec_some_of_isNNF (g : F) (h : IsNNF g) (t : Tbl) : ∃ r, cnfRec g t = some r := by
@@ -278,18 +580,20 @@ theorem cnfRec_some_of_isNNF (g : F) (h : IsNNF g) (t : Tbl) : ∃ r, cnfRec g t
   · exact cnfRec_some_of_ok _ _ g h t
 
 /-- **`nnf_grammar`.** `cnfRec(f.nnf(), vars)` never reaches one of its `panic`s: `asCnf` (hence
-    `Dimacs` and `Solve`'s conversion) is total. -/
+    `Dimacs` and `Solve`'s conversion) is total — for every tree, `unique` nodes included. -/
 theorem nnf_grammar (f : F) : IsNNF (nnf f) ∧ ∃ r, asCnf f = some r :=
   ⟨nnf_isNNF f, cnfRec_some_of_isNNF _ (nnf_isNNF f) []⟩
 
 /-- the panic is real on trees outside the grammar (they are never produced by `nnf`) -/
 example : cnfRec (.or [.lit 0 false false, .or [.lit 1 false false, .lit 2 false false]]) [] = none := by
   simp [cnfRec, cnfOr, cnfOrChild, litValue]
+example : cnfRec (.unique [(0, false)]) [] = none := by simp [cnfRec]
 
 /-! ## `nnf_idem`: the polarity recursion agrees with Go's double normalisation
 
 Go's `not{and(fs)}.nnf()` computes `or(subs).nnf()` with `subs[i] = not{fs[i]}.nnf()`, so every
-child is normalised a second time by `or.nnf`. `nnfP` normalises once; both agree because `nnf`
+child is normalised a second time by `or.nnf`. `nnfP` normalises once (likewise `unique.nnf()` normalises
+`uniqueRec(u...)` and the whole is normalised again by the parent); both agree because `nnf`
 is the identity on NNF trees. -/
 
 theorem andFold_of_ok : ∀ (xs acc : List F), nnfOkAll true false xs = true →
@@ -312,6 +616,7 @@ theorem andFold_of_ok : ∀ (xs acc : List F), nnfOkAll true false xs = true →
     | not f => simp [nnfOk] at h
     | tt => simp [nnfOk] at h
     | ff => simp [nnfOk] at h
+    | unique ks => simp [nnfOk] at h
 
 theorem orFold_of_ok : ∀ (xs acc : List F), nnfOkAll false true xs = true →
     orFold xs acc = orFold [] (acc ++ xs) := by
@@ -333,21 +638,22 @@ theorem orFold_of_ok : ∀ (xs acc : List F), nnfOkAll false true xs = true →
     | not f => simp [nnfOk] at h
     | tt => simp [nnfOk] at h
     | ff => simp [nnfOk] at h
+    | unique ks => simp [nnfOk] at h
 
 mutual
-theorem nnfP_fix : ∀ (a o : Bool) (f : F), nnfOk a o f = true → nnfP false f = f
-  | _, _, .lit n d s, _ => by simp [nnfP]
+theorem nnfPX_fix (X : Bool → List Key → F) : ∀ (a o : Bool) (f : F), nnfOk a o f = true → nnfPX X false f = f
+  | _, _, .lit n d s, _ => by simp [nnfPX]
   | a, o, .and fs, h => by
       simp [nnfOk] at h
-      have hfix := nnfPs_fix true false fs h.2
-      simp only [nnfP, hfix]
+      have hfix := nnfPsX_fix X true false fs h.2
+      simp only [nnfPX, hfix]
       rw [andFold_of_ok _ _ h.2]
       match fs, h.1.2 with
       | x :: y :: r, _ => simp [andFold]
   | a, o, .or fs, h => by
       simp [nnfOk] at h
-      have hfix := nnfPs_fix false true fs h.2
-      simp only [nnfP, hfix]
+      have hfix := nnfPsX_fix X false true fs h.2
+      simp only [nnfPX, hfix]
       rw [orFold_of_ok _ _ h.2]
       match fs, h.1.2 with
       | x :: y :: r, _ => simp [orFold]
@@ -355,118 +661,275 @@ theorem nnfP_fix : ∀ (a o : Bool) (f : F), nnfOk a o f = true → nnfP false f
   | _, _, .not _, h => by simp [nnfOk] at h
   | _, _, .tt, h => by simp [nnfOk] at h
   | _, _, .ff, h => by simp [nnfOk] at h
-theorem nnfPs_fix : ∀ (a o : Bool) (fs : List F), nnfOkAll a o fs = true → nnfPs false fs = fs
-  | _, _, [], _ => by simp [nnfPs]
+  | _, _, .unique _, h => by simp [nnfOk] at h
+theorem nnfPsX_fix (X : Bool → List Key → F) : ∀ (a o : Bool) (fs : List F), nnfOkAll a o fs = true → nnfPsX X false fs = fs
+  | _, _, [], _ => by simp [nnfPsX]
   | a, o, f :: fs, h => by
       simp [nnfOkAll] at h
-      simp [nnfPs, nnfP_fix a o f h.1, nnfPs_fix a o fs h.2]
+      simp [nnfPsX, nnfPX_fix X a o f h.1, nnfPsX_fix X a o fs h.2]
 end
 
-theorem nnf_fix (g : F) (h : IsNNF g) : nnf g = g := by
+theorem nnfPX_fix' (X : Bool → List Key → F) (g : F) (h : IsNNF g) : nnfPX X false g = g := by
   rcases h with rfl | rfl | h
-  · simp [nnf, nnfP]
-  · simp [nnf, nnfP]
-  · exact nnfP_fix _ _ g h
+  · simp [nnfPX]
+  · simp [nnfPX]
+  · exact nnfPX_fix X _ _ g h
+
+theorem nnf_fix (g : F) (h : IsNNF g) : nnf g = g := nnfPX_fix' uniqueX g h
 
 /-- **`nnf_idem`.** Normalising twice is normalising once. -/
 theorem nnf_idem (f : F) : nnf (nnf f) = nnf f := nnf_fix _ (nnf_isNNF f)
 
 theorem nnfPs_false_map (b : Bool) : ∀ fs : List F, nnfPs false (fs.map (nnfP b)) = nnfPs b fs
-  | [] => by simp [nnfPs]
+  | [] => by simp [nnfPs, nnfPsX]
   | f :: fs => by
       have h := nnf_fix _ (nnfP_isNNF b f)
-      simp only [nnf] at h
-      simp [nnfPs, h, nnfPs_false_map b fs]
+      have ih := nnfPs_false_map b fs
+      simp only [nnf, nnfP] at h
+      simp only [nnfPs, nnfP] at ih ⊢
+      simp [nnfPsX, h, ih]
 
 /-- the Go text of `not.nnf`, case `and`: `subs[i] = not{sub}.nnf(); return or(subs).nnf()` -/
 theorem nnf_not_and (fs : List F) :
     nnf (.not (.and fs)) = nnf (.or (fs.map (fun s => nnf (.not s)))) := by
-  simp [nnf, nnfP, nnfPs_false_map]
+  have h := nnfPs_false_map true fs
+  simp only [nnfPs, nnfP] at h
+  simp only [nnf, nnfP, nnfPX, Bool.not_false]
+  rw [← h]
 
 /-- the Go text of `not.nnf`, case `or`: `subs[i] = not{sub}.nnf(); return and(subs).nnf()` -/
 theorem nnf_not_or (fs : List F) :
     nnf (.not (.or fs)) = nnf (.and (fs.map (fun s => nnf (.not s)))) := by
-  simp [nnf, nnfP, nnfPs_false_map]
+  have h := nnfPs_false_map true fs
+  simp only [nnfPs, nnfP] at h
+  simp only [nnf, nnfP, nnfPX, Bool.not_false]
+  rw [← h]
 
 theorem nnfPs_eq_map (b : Bool) : ∀ fs : List F, nnfPs b fs = fs.map (nnfP b)
-  | [] => by simp [nnfPs]
-  | f :: fs => by simp [nnfPs, nnfPs_eq_map b fs]
+  | [] => by simp [nnfPs, nnfPsX]
+  | f :: fs => by
+      have ih := nnfPs_eq_map b fs
+      simp only [nnfPs, nnfP] at ih ⊢
+      simp [nnfPsX, ih]
 
 /-- the Go text of `and.nnf` / `or.nnf`: normalise every child, then run the loop -/
 theorem nnf_and (fs : List F) : nnf (.and fs) = andFold (fs.map nnf) [] := by
-  simp only [nnf, nnfP, nnfPs_eq_map]; rfl
+  have h := nnfPs_eq_map false fs
+  simp only [nnfPs, nnfP] at h
+  simp only [nnf, nnfP, nnfPX, h]; rfl
 theorem nnf_or (fs : List F) : nnf (.or fs) = orFold (fs.map nnf) [] := by
-  simp only [nnf, nnfP, nnfPs_eq_map]; rfl
-theorem nnf_not_not (f : F) : nnf (.not (.not f)) = nnf f := by simp [nnf, nnfP]
+  have h := nnfPs_eq_map false fs
+  simp only [nnfPs, nnfP] at h
+  simp only [nnf, nnfP, nnfPX, h]; rfl
+theorem nnf_not_not (f : F) : nnf (.not (.not f)) = nnf f := by simp [nnf, nnfP, nnfPX]
 
-/-! ## `builders_eval` -/
+mutual
+/-- on a formula without `unique` node the treatment of these nodes is irrelevant -/
+theorem nnfPX_indep (X X' : Bool → List Key → F) : ∀ (b : Bool) (f : F), noU f = true → nnfPX X b f = nnfPX X' b f
+  | false, .var _ _, _ => by simp [nnfPX]
+  | true, .var _ _, _ => by simp [nnfPX]
+  | _, .lit _ _ _, _ => by simp [nnfPX]
+  | b, .not f, h => by simp only [nnfPX]; exact nnfPX_indep X X' (!b) f (by simpa [noU] using h)
+  | false, .and fs, h => by simp only [nnfPX, nnfPsX_indep X X' false fs (by simpa [noU] using h)]
+  | true, .and fs, h => by simp only [nnfPX, nnfPsX_indep X X' true fs (by simpa [noU] using h)]
+  | false, .or fs, h => by simp only [nnfPX, nnfPsX_indep X X' false fs (by simpa [noU] using h)]
+  | true, .or fs, h => by simp only [nnfPX, nnfPsX_indep X X' true fs (by simpa [noU] using h)]
+  | false, .tt, _ => by simp [nnfPX]
+  | true, .tt, _ => by simp [nnfPX]
+  | false, .ff, _ => by simp [nnfPX]
+  | true, .ff, _ => by simp [nnfPX]
+  | _, .unique _, h => by simp [noU] at h
+theorem nnfPsX_indep (X X' : Bool → List Key → F) : ∀ (b : Bool) (fs : List F), noUs fs = true → nnfPsX X b fs = nnfPsX X' b fs
+  | _, [], _ => by simp [nnfPsX]
+  | b, f :: fs, h => by
+      simp only [noUs, Bool.and_eq_true] at h
+      simp only [nnfPsX, nnfPX_indep X X' b f h.1, nnfPsX_indep X X' b fs h.2]
+end
 
-theorem implies_eval (m) (a b : F) : eval m (implies a b) = (!eval m a || eval m b) := by
-  simp [implies, eval, evalAny]
+/-- the Go text of `unique.nnf`: `uniqueRec(u...).nnf()` -/
+theorem nnf_unique (ks : List Key) : nnf (.unique ks) = nnf (uniqueRec natDims ks) := by
+  simp only [nnf, nnfP, nnfPX, uniqueX, uniqueXD, Bool.false_eq_true, if_false, nnf0P]
+  exact nnfPX_indep _ _ false _ (GS.BfUnique.uniqueRecF_noU _ _ _ _)
 
-theorem eq_eval (m) (a b : F) : eval m (eq a b) = (eval m a == eval m b) := by
-  cases ha : eval m a <;> cases hb : eval m b <;> simp [eq, eval, evalAny, evalAll, ha, hb]
+/-- the Go text of `not.nnf`, case `unique`: `f.negation().nnf()` -/
+theorem nnf_not_unique (ks : List Key) : nnf (.not (.unique ks)) = nnf (negation ks) := by
+  simp only [nnf, nnfP, nnfPX, uniqueX, uniqueXD, Bool.not_false, if_true, nnf0P]
+  exact nnfPX_indep _ _ false _ (negation_noU ks)
 
-theorem xor_eval (m) (a b : F) : eval m (xor a b) = (eval m a != eval m b) := by
-  cases ha : eval m a <;> cases hb : eval m b <;> simp [xor, eval, evalAny, evalAll, ha, hb]
+/-! ## the variables of `f.nnf()` -/
 
-theorem evalAll_mapNot (m) (v : F) : ∀ vs : List F,
-    evalAll m (vs.map (fun w => F.or [.not v, .not w])) = (!eval m v || !evalAny m vs)
-  | [] => by simp [evalAll, evalAny]
-  | w :: vs => by
-      cases hv : eval m v <;> cases hw : eval m w <;>
-        simp [evalAll, evalAny, eval, evalAll_mapNot m v vs, hv, hw]
+theorem andFold_allK (p : Key → Bool) : ∀ (xs acc : List F), allKs p xs = true → allKs p acc = true →
+    allK p (andFold xs acc) = true := by
+  intro xs
+  induction xs with
+  | nil =>
+    intro acc _ h
+    match acc with
+    | [] => simp [andFold, allK]
+    | [x] => simpa [andFold, allKs] using h
+    | x :: y :: r => rw [andFold_nil_two]; simpa [allK] using h
+  | cons x xs ih =>
+    intro acc hx hacc
+    simp only [allKs, Bool.and_eq_true] at hx
+    cases x with
+    | and gs => simp only [andFold]; apply ih _ hx.2; simp [allKs_append, hacc]; simpa [allK] using hx.1
+    | tt => simp only [andFold]; exact ih _ hx.2 hacc
+    | ff => simp [andFold, allK]
+    | var n d => simp only [andFold]; apply ih _ hx.2; simp [allKs_append, hacc, allKs, hx.1]
+    | lit n d s => simp only [andFold]; apply ih _ hx.2; simp [allKs_append, hacc, allKs, hx.1]
+    | not f => simp only [andFold]; apply ih _ hx.2; simp [allKs_append, hacc, allKs, hx.1]
+    | or gs => simp only [andFold]; apply ih _ hx.2; simp [allKs_append, hacc, allKs, hx.1]
+    | unique ks => simp only [andFold]; apply ih _ hx.2; simp [allKs_append, hacc, allKs, hx.1]
 
-theorem evalAny_count (m) : ∀ vs : List F, evalAny m vs = decide (1 ≤ countTrue (vs.map (eval m)))
-  | [] => by simp [evalAny, countTrue]
-  | v :: vs => by
-      cases hv : eval m v <;> simp [evalAny, countTrue, evalAny_count m vs, hv]
+theorem orFold_allK (p : Key → Bool) : ∀ (xs acc : List F), allKs p xs = true → allKs p acc = true →
+    allK p (orFold xs acc) = true := by
+  intro xs
+  induction xs with
+  | nil =>
+    intro acc _ h
+    match acc with
+    | [] => simp [orFold, allK]
+    | [x] => simpa [orFold, allKs] using h
+    | x :: y :: r => rw [orFold_nil_two]; simpa [allK] using h
+  | cons x xs ih =>
+    intro acc hx hacc
+    simp only [allKs, Bool.and_eq_true] at hx
+    cases x with
+    | or gs => simp only [orFold]; apply ih _ hx.2; simp [allKs_append, hacc]; simpa [allK] using hx.1
+    | ff => simp only [orFold]; exact ih _ hx.2 hacc
+    | tt => simp [orFold, allK]
+    | var n d => simp only [orFold]; apply ih _ hx.2; simp [allKs_append, hacc, allKs, hx.1]
+    | lit n d s => simp only [orFold]; apply ih _ hx.2; simp [allKs_append, hacc, allKs, hx.1]
+    | not f => simp only [orFold]; apply ih _ hx.2; simp [allKs_append, hacc, allKs, hx.1]
+    | and gs => simp only [orFold]; apply ih _ hx.2; simp [allKs_append, hacc, allKs, hx.1]
+    | unique ks => simp only [orFold]; apply ih _ hx.2; simp [allKs_append, hacc, allKs, hx.1]
 
-theorem pairsNot_count (m) : ∀ vs : List F,
-    evalAll m (pairsNot vs) = decide (countTrue (vs.map (eval m)) ≤ 1)
-  | [] => by simp [pairsNot, evalAll, countTrue]
-  | v :: vs => by
-      simp only [pairsNot, evalAll_append, evalAll_mapNot, pairsNot_count m vs, evalAny_count m vs,
-        List.map_cons, countTrue]
-      generalize countTrue (vs.map (eval m)) = c
-      cases hv : eval m v
-      · simp
-      · rw [Bool.eq_iff_iff]
-        simp only [Bool.not_eq_true', Bool.and_eq_true, decide_eq_true_eq,
-          decide_eq_false_iff_not, if_true, Bool.not_true, Bool.false_or]
-        omega
+section keysX
+set_option linter.unusedSectionVars false
+variable (p : Key → Bool) (X : Bool → List Key → F)
+  (hX : ∀ b ks, ks.all p = true → allK p (X b ks) = true)
+include hX
+mutual
+theorem nnfPX_allK : ∀ (b : Bool) (f : F), allK p f = true → allK p (nnfPX X b f) = true
+  | false, .var n d, h => by simpa [nnfPX, allK] using h
+  | true, .var n d, h => by simpa [nnfPX, allK] using h
+  | b, .lit n d neg, h => by simpa [nnfPX, allK] using h
+  | false, .not f, h => by simpa [nnfPX] using nnfPX_allK true f (by simpa [allK] using h)
+  | true, .not f, h => by simpa [nnfPX] using nnfPX_allK false f (by simpa [allK] using h)
+  | false, .and fs, h => by
+      simp only [nnfPX]; exact andFold_allK p _ _ (nnfPsX_allK false fs (by simpa [allK] using h)) rfl
+  | true, .and fs, h => by
+      simp only [nnfPX]; exact orFold_allK p _ _ (nnfPsX_allK true fs (by simpa [allK] using h)) rfl
+  | false, .or fs, h => by
+      simp only [nnfPX]; exact orFold_allK p _ _ (nnfPsX_allK false fs (by simpa [allK] using h)) rfl
+  | true, .or fs, h => by
+      simp only [nnfPX]; exact andFold_allK p _ _ (nnfPsX_allK true fs (by simpa [allK] using h)) rfl
+  | false, .tt, _ => by simp [nnfPX, allK]
+  | true, .tt, _ => by simp [nnfPX, allK]
+  | false, .ff, _ => by simp [nnfPX, allK]
+  | true, .ff, _ => by simp [nnfPX, allK]
+  | b, .unique ks, h => by simp only [nnfPX]; exact hX b ks (by simpa [allK] using h)
+theorem nnfPsX_allK : ∀ (b : Bool) (fs : List F), allKs p fs = true → allKs p (nnfPsX X b fs) = true
+  | _, [], _ => by simp [nnfPsX, allKs]
+  | b, f :: fs, h => by
+      simp only [allKs, Bool.and_eq_true] at h
+      simp [nnfPsX, allKs, nnfPX_allK b f h.1, nnfPsX_allK b fs h.2]
+end
+end keysX
 
-/-- `uniqueSmall` on arbitrary sub-formulas: exactly one *position* is true -/
-theorem uniqueSmallV_eval (m) (vs : List F) :
-    eval m (uniqueSmallV vs) = (countTrue (vs.map (eval m)) == 1) := by
-  simp only [uniqueSmallV, eval, evalAll, evalAny_count, pairsNot_count]
-  generalize countTrue (vs.map (eval m)) = c
-  rw [Bool.eq_iff_iff]
-  simp only [Bool.and_eq_true, decide_eq_true_eq, beq_iff_eq]
-  omega
+theorem nnf0P_allK (p : Key → Bool) (b : Bool) (f : F) (h : allK p f = true) : allK p (nnf0P b f) = true :=
+  nnfPX_allK p _ (fun _ _ _ => rfl) b f h
 
-/-- **`uniqueSmall`.** Exactly one of the listed names is true, counted by position — which is
-    the spec's `SF.unique`, *without* a distinctness hypothesis: with a repeated name `x` the
-    Go formula contains `or{not x, not x}` and forces `x` false, and so does "exactly one
-    position true" (e.g. `Unique("a","a")` is unsatisfiable on both sides). -/
-theorem uniqueSmall_eval (m : Key → Bool) (ns : List Nat) :
-    eval m (uniqueSmall ns) = (countTrue (ns.map (fun n => m (n, false))) == 1) := by
-  simp only [uniqueSmall, uniqueSmallV_eval, List.map_map]
-  rfl
+/-- the variables of the normal form of a group of formula-level variables are formula-level
+    variables: those of the group, and `line-…` / `col-…` dummies in positive position only -/
+theorem uniqueX_isFK (b : Bool) (ks : List Key) (h : ks.all isFK = true) : allK isFK (uniqueX b ks) = true := by
+  unfold uniqueX uniqueXD
+  apply nnf0P_allK
+  cases b
+  · simp only [Bool.false_eq_true, if_false]
+    exact GS.BfUnique.uniqueRecF_allK natDims natName _ ks h
+  · simp only [if_true]
+    exact negation_allK isFK ks h
 
-theorem builders_eval (m : Key → Bool) (a b : F) (ns : List Nat) :
-    eval m (implies a b) = (!eval m a || eval m b) ∧
-    eval m (eq a b) = (eval m a == eval m b) ∧
-    eval m (xor a b) = (eval m a != eval m b) ∧
-    eval m (uniqueSmall ns) = (countTrue (ns.map (fun n => m (n, false))) == 1) :=
-  ⟨implies_eval m a b, eq_eval m a b, xor_eval m a b, uniqueSmall_eval m ns⟩
+theorem uniqueRecF_small_eq (dims : Nat → Nat × Nat) (nm : Bool → Nat → List Key → Nat) (fuel : Nat)
+    (ks : List Key) (h : ks.length ≤ 4) : uniqueRecF dims nm fuel ks = uniqueSmallV (ks.map keyVar) := by
+  cases fuel with
+  | zero => simp only [uniqueRecF]
+  | succ n => simp only [uniqueRecF, h, if_true]
 
-example : ∀ x : Bool, eval (fun _ => x) (uniqueSmall [0, 0]) = false := by
-  intro x; cases x <;> simp [uniqueSmall_eval, countTrue]
-example : eval (fun k => k.1 == 1) (uniqueSmall [0, 0, 1]) = true := by
-  simp [uniqueSmall_eval, countTrue]
+/-- in negative position (and for at most 4 names in positive position) no dummy at all -/
+theorem uniqueX_user (b : Bool) (ks : List Key) (hb : b = true ∨ ks.length ≤ 4)
+    (h : ks.all (fun k => !k.2) = true) : userOnly (uniqueX b ks) = true := by
+  unfold uniqueX uniqueXD userOnly
+  apply nnf0P_allK
+  cases b
+  · have h4 : ks.length ≤ 4 := by rcases hb with hb | hb; cases hb; exact hb
+    simp only [Bool.false_eq_true, if_false, uniqueRec, uniqueRecN]
+    rw [uniqueRecF_small_eq _ _ _ ks h4]; exact uniqueSmallV_allK _ ks h
+  · simp only [if_true]
+    exact negation_allK _ ks h
 
-/-! ## `ofSF_eval` -/
+/-- `f.nnf()` only mentions formula-level variables (no `dummy-<n>` of `cnfRec`) when `f` does -/
+theorem nnf_isFK (f : F) (h : allK isFK f = true) : allK isFK (nnf f) = true :=
+  nnfPX_allK isFK uniqueX uniqueX_isFK false f h
+
+theorem nnf_isFK_of_user (f : F) (h : userOnly f = true) : allK isFK (nnf f) = true :=
+  nnf_isFK f (allK_mono _ _ isFK_of_user f h)
+
+section smallX
+mutual
+/-- on the fragment of `nnf_eval` (groups in positive position of at most 4 names) the normal
+    form mentions no dummy variable at all -/
+theorem nnfP_user : ∀ (b : Bool) (f : F), userOnly f = true →
+    allU (fun b ks => b || decide (ks.length ≤ 4)) b f = true → userOnly (nnfP b f) = true
+  | false, .var n d, h, _ => by simpa [nnfP, nnfPX, userOnly, allK] using h
+  | true, .var n d, h, _ => by simpa [nnfP, nnfPX, userOnly, allK] using h
+  | b, .lit n d neg, h, _ => by simpa [nnfP, nnfPX, userOnly, allK] using h
+  | false, .not f, h, hs => by
+      simpa [nnfP, nnfPX] using nnfP_user true f (by simpa [userOnly, allK] using h) (by simpa [allU] using hs)
+  | true, .not f, h, hs => by
+      simpa [nnfP, nnfPX] using nnfP_user false f (by simpa [userOnly, allK] using h) (by simpa [allU] using hs)
+  | false, .and fs, h, hs => by
+      simp only [nnfP, nnfPX]
+      exact andFold_allK _ _ _ (nnfPs_user false fs (by simpa [userOnly, userOnlyAll, allK] using h) (by simpa [allU] using hs)) rfl
+  | true, .and fs, h, hs => by
+      simp only [nnfP, nnfPX]
+      exact orFold_allK _ _ _ (nnfPs_user true fs (by simpa [userOnly, userOnlyAll, allK] using h) (by simpa [allU] using hs)) rfl
+  | false, .or fs, h, hs => by
+      simp only [nnfP, nnfPX]
+      exact orFold_allK _ _ _ (nnfPs_user false fs (by simpa [userOnly, userOnlyAll, allK] using h) (by simpa [allU] using hs)) rfl
+  | true, .or fs, h, hs => by
+      simp only [nnfP, nnfPX]
+      exact andFold_allK _ _ _ (nnfPs_user true fs (by simpa [userOnly, userOnlyAll, allK] using h) (by simpa [allU] using hs)) rfl
+  | false, .tt, _, _ => by simp [nnfP, nnfPX, userOnly, allK]
+  | true, .tt, _, _ => by simp [nnfP, nnfPX, userOnly, allK]
+  | false, .ff, _, _ => by simp [nnfP, nnfPX, userOnly, allK]
+  | true, .ff, _, _ => by simp [nnfP, nnfPX, userOnly, allK]
+  | b, .unique ks, h, hs => by
+      simp only [nnfP, nnfPX]
+      apply uniqueX_user b ks _ (by simpa [userOnly, allK] using h)
+      cases b
+      · right; simpa [allU] using hs
+      · left; rfl
+theorem nnfPs_user : ∀ (b : Bool) (fs : List F), userOnlyAll fs = true →
+    allUs (fun b ks => b || decide (ks.length ≤ 4)) b fs = true → allKs (fun k => !k.2) (nnfPsX uniqueX b fs) = true
+  | _, [], _, _ => by simp [nnfPsX, allKs]
+  | b, f :: fs, h, hs => by
+      simp only [userOnlyAll, allKs, Bool.and_eq_true] at h
+      simp only [allUs, Bool.and_eq_true] at hs
+      have h1 := nnfP_user b f h.1 hs.1
+      have h2 := nnfPs_user b fs h.2 hs.2
+      simp only [userOnly, nnfP] at h1
+      simp [nnfPsX, allKs, h1, h2]
+end
+end smallX
+
+/-- **no auxiliary variable outside the positive large groups**: if every exactly-one group in
+    positive position has at most 4 names, `f.nnf()` mentions problem variables only. -/
+theorem nnf_user (f : F) (h : userOnly f = true) (hs : smallPos f = true) : userOnly (nnf f) = true :=
+  nnfP_user false f h hs
+
+/-! ## `ofSF` -/
 
 /-- a spec assignment of names as an assignment of Go variables (dummies take the value of
     their number; no formula in the image of `ofSF` mentions one) -/
@@ -483,7 +946,7 @@ theorem ofSF_eval (m : Nat → Bool) : ∀ g : SF, eval (lift m) (ofSF g) = SF.e
   | .imp a b => by simp [ofSF, implies_eval, SF.eval, ofSF_eval m a, ofSF_eval m b]
   | .iff a b => by simp [ofSF, eq_eval, SF.eval, ofSF_eval m a, ofSF_eval m b]
   | .xor a b => by simp [ofSF, xor_eval, SF.eval, ofSF_eval m a, ofSF_eval m b]
-  | .unique ns => by simp [ofSF, uniqueSmall_eval, SF.eval, lift]
+  | .unique ns => by simp [ofSF, uniqueOf_eval, SF.eval, lift]
 theorem ofSFs_all (m : Nat → Bool) : ∀ fs : List SF, evalAll (lift m) (ofSFs fs) = SF.evalAll m fs
   | [] => by simp [ofSFs, evalAll, SF.evalAll]
   | f :: fs => by simp [ofSFs, evalAll, SF.evalAll, ofSF_eval m f, ofSFs_all m fs]
@@ -492,13 +955,83 @@ theorem ofSFs_any (m : Nat → Bool) : ∀ fs : List SF, evalAny (lift m) (ofSFs
   | f :: fs => by simp [ofSFs, evalAny, SF.evalAny, ofSF_eval m f, ofSFs_any m fs]
 end
 
-/-- **C11, formula side.** The NNF that `Solve` / `Dimacs` hand to `cnfRec` has the truth table
-    of the formula the user wrote (for every spec formula; the Go `Unique` is `uniqueSmall` only
-    when `supported g`). -/
-theorem nnf_ofSF_eval (m : Nat → Bool) (g : SF) : eval (lift m) (nnf (ofSF g)) = SF.eval m g := by
-  rw [nnf_eval, ofSF_eval]
+mutual
+theorem ofSF_user : ∀ g : SF, userOnly (ofSF g) = true
+  | .var n => by simp [ofSF, pbVar, userOnly, allK]
+  | .tt => by simp [ofSF, userOnly, allK]
+  | .ff => by simp [ofSF, userOnly, allK]
+  | .not f => by have := ofSF_user f; simp only [userOnly] at this; simp [ofSF, userOnly, allK, this]
+  | .and fs => by have := ofSFs_user fs; simp only [userOnlyAll] at this; simp [ofSF, userOnly, allK, this]
+  | .or fs => by have := ofSFs_user fs; simp only [userOnlyAll] at this; simp [ofSF, userOnly, allK, this]
+  | .imp a b => by
+      have h1 := ofSF_user a; have h2 := ofSF_user b; simp only [userOnly] at h1 h2
+      simp [ofSF, implies, userOnly, allK, allKs, h1, h2]
+  | .iff a b => by
+      have h1 := ofSF_user a; have h2 := ofSF_user b; simp only [userOnly] at h1 h2
+      simp [ofSF, eq, userOnly, allK, allKs, h1, h2]
+  | .xor a b => by
+      have h1 := ofSF_user a; have h2 := ofSF_user b; simp only [userOnly] at h1 h2
+      simp [ofSF, xor, userOnly, allK, allKs, h1, h2]
+  | .unique ns => by simp [ofSF, uniqueOf, userOnly, allK]
+theorem ofSFs_user : ∀ fs : List SF, userOnlyAll (ofSFs fs) = true
+  | [] => by simp [ofSFs, userOnlyAll, allKs]
+  | f :: fs => by
+      have h1 := ofSF_user f; have h2 := ofSFs_user fs; simp only [userOnly, userOnlyAll] at h1 h2
+      simp [ofSFs, userOnlyAll, allKs, h1, h2]
+end
 
-example : supported (.and [.unique [0, 1, 2, 3], .iff (.var 0) (.xor (.var 1) (.not (.var 2)))]) = true := by
-  simp [supported, supportedAll]
+/-- the polarity-aware size condition on spec formulas: every exactly-one group in positive
+    position has at most `k` names (`Implies` negates its left side; both sides of `Eq` / `Xor`
+    occur at both polarities) -/
+def posGroupsLe (k : Nat) (g : SF) : Bool := allU (fun b ks => b || decide (ks.length ≤ k)) false (ofSF g)
+
+/-- **C11, formula side, equality form.** The NNF that `Solve` / `Dimacs` hand to `cnfRec` has
+    the truth table of the formula the user wrote, for every spec formula whose exactly-one groups
+    in positive position have at most 4 names (any size in negative position). -/
+theorem nnf_ofSF_eval (m : Nat → Bool) (g : SF) (h : posGroupsLe 4 g = true) :
+    eval (lift m) (nnf (ofSF g)) = SF.eval m g := by
+  rw [nnf_eval _ _ h, ofSF_eval]
+
+/-- **C11, formula side, every formula.** For every spec formula — exactly-one groups of every
+    size at every polarity — an assignment `m` of the names satisfies `g` iff it extends (on the
+    dummy variables) to a model of the NNF handed to `cnfRec`. -/
+theorem nnf_ofSF_models (m : Nat → Bool) (g : SF) :
+    SF.eval m g = true ↔
+      ∃ m' : Key → Bool, (∀ n, m' (n, false) = m n) ∧ eval m' (nnf (ofSF g)) = true := by
+  rw [← ofSF_eval, nnf_models (lift m) (ofSF g) (ofSF_user g)]
+  rfl
+
+mutual
+theorem supportedP_eq : ∀ (b : Bool) (g : SF),
+    supportedP b g = allU (fun b ks => b || decide (ks.length ≤ maxPosGroup)) b (ofSF g)
+  | _, .var _ => by simp [supportedP, ofSF, pbVar, allU]
+  | _, .tt => by simp [supportedP, ofSF, allU]
+  | _, .ff => by simp [supportedP, ofSF, allU]
+  | b, .not f => by simp [supportedP, ofSF, allU, supportedP_eq (!b) f]
+  | b, .and fs => by simp [supportedP, ofSF, allU, supportedAllP_eq b fs]
+  | b, .or fs => by simp [supportedP, ofSF, allU, supportedAllP_eq b fs]
+  | b, .imp x y => by simp [supportedP, ofSF, implies, allU, allUs, supportedP_eq (!b) x, supportedP_eq b y]
+  | b, .iff x y => by
+      simp [supportedP, ofSF, eq, allU, allUs, supportedP_eq (!b) x, supportedP_eq b y, supportedP_eq b x,
+        supportedP_eq (!b) y]
+  | b, .xor x y => by
+      simp [supportedP, ofSF, xor, allU, allUs, supportedP_eq (!b) x, supportedP_eq b y, supportedP_eq b x,
+        supportedP_eq (!b) y]
+  | b, .unique ns => by simp [supportedP, ofSF, uniqueOf, allU]
+theorem supportedAllP_eq : ∀ (b : Bool) (fs : List SF),
+    supportedAllP b fs = allUs (fun b ks => b || decide (ks.length ≤ maxPosGroup)) b (ofSFs fs)
+  | _, [] => by simp [supportedAllP, ofSFs, allUs]
+  | b, f :: fs => by simp [supportedAllP, ofSFs, allUs, supportedP_eq b f, supportedAllP_eq b fs]
+end
+
+/-- **what `supported` means**: every exactly-one group *in positive position* of the Go formula
+    has at most `maxPosGroup = 16` names (up to 16 names `uniqueRec` does not nest: the line and
+    column groups have at most 4 members). No condition on the groups in negative position. -/
+theorem supported_eq (g : SF) : supported g = posGroupsLe maxPosGroup g := supportedP_eq false g
+
+example : posGroupsLe 4 (.and [.unique [0, 1, 2, 3], .iff (.var 0) (.xor (.var 1) (.not (.var 2)))]) = true := by
+  decide
+example : posGroupsLe 4 (.imp (.unique [0, 1, 2, 3, 4, 5]) (.not (.unique [0, 1, 2, 3, 4]))) = true := by decide
+example : supported (.and [.unique [0, 1, 2, 3, 4, 5, 6], .not (.unique (List.range 30))]) = true := by decide
 
 end GS.Bf
